@@ -1200,6 +1200,19 @@ def run_schema(R, gen, desc, n_val, n_lit, n_var):
     for _ in range(n_val):
         t = r.choice(desc["args"])
         items.append((t, gen.value(desc, t, 3, valid=r.random() < 0.7)))
+    if not getattr(R, "_scalar_sweep_done", False):
+        # deterministic sweep (once per run): every built-in scalar, bare and in a list, x a universe of edge values
+        R._scalar_sweep_done = True
+        uni = [sspec(x) for x in ["", "a", "1", "-12", "12\n", "-5\n", "0\n", "\n", "007", "0", "-0", "1.5", "1e3", "+1", " 1",
+                                  "1 ", "\u0661\u0662", "true", "1_0", "0x10", "9" * 25]]
+        uni += [ispec(x) for x in [0, -1, 7, 2 ** 31 - 1, 2 ** 31, -2 ** 31, -2 ** 31 - 1, 2 ** 53 + 1, 10 ** 30, -10 ** 30]]
+        uni += [fspec(x) for x in [0.0, -0.0, 1.5, 123.0, 1e22, 1e308, 5e-324, -2147483648.0, 2147483648.0]]
+        uni += [["bool", 0], ["bool", 1], ["none"]]
+        for nm in SCALARS:
+            for v in uni:
+                items.append((["n", nm], v))
+                items.append((["l", ["nn", ["n", nm]]], ["list", [v, v]]))
+        ck.count("scalar_sweep_cases", 2 * len(uni) * len(SCALARS))
     R.value_cases(schema, desc, items)
     lits, vars_items = [], []
     vsets = [R.variables_for(schema, desc, gen) for _ in range(max(1, n_var))]
